@@ -172,11 +172,16 @@ pub struct Scripted {
     pub call: usize,
     /// sizes actually handed out
     pub log: Vec<usize>,
+    /// the peer keeps the connection open: at the end of the data a read stays pending instead of returning 0
+    pub open: bool,
 }
 impl tokio::io::AsyncRead for Scripted {
     fn poll_read(mut self: Pin<&mut Self>, _cx: &mut Context<'_>, buf: &mut tokio::io::ReadBuf<'_>) -> Poll<std::io::Result<()>> {
         let want = if self.pattern.is_empty() { usize::MAX } else { self.pattern[self.call % self.pattern.len()].max(1) };
         let k = want.min(buf.remaining()).min(self.data.len() - self.pos);
+        if k == 0 && self.open && buf.remaining() > 0 {
+            return Poll::Pending;
+        }
         let (a, b) = (self.pos, self.pos + k);
         buf.put_slice(&self.data[a..b]);
         self.pos = b;
@@ -243,7 +248,7 @@ impl Group for ReadAll {
         let pattern: Vec<usize> = parse_list(p[4]).unwrap().iter().map(|s| s.parse().unwrap()).collect();
         let max = if p[5] == "umax" { usize::MAX } else { p[5].parse().unwrap() };
         let mut buf = bm(&init, spare);
-        let mut rd = Scripted { data: stream, pos: 0, pattern, call: 0, log: vec![] };
+        let mut rd = Scripted { data: stream, pos: 0, pattern, call: 0, log: vec![], open: false };
         let rt = tokio::runtime::Builder::new_current_thread().build().unwrap();
         let r = rt.block_on(kvarn_async::read_to_end_or_max(&mut buf, &mut rd, max));
         match r {
